@@ -102,6 +102,9 @@ func genC15(t *rapid.T) c15Case {
 		c.MutRec = rapid.IntRange(0, len(c.Recs)-1).Draw(t, "mutRec")
 		c.MutCol = rapid.IntRange(0, c.Shape.NCols+c.Shape.NSub-1).Draw(t, "mutCol")
 		c.MutSub = rapid.IntRange(0, 3).Draw(t, "mutSub")
+		if c.Shape.Format == "xml" && c.Shape.XMLAttr && rapid.Bool().Draw(t, "mutAttrCol") {
+			c.MutCol = c.Shape.NCols - 1 // the column that is written as an attribute
+		}
 	}
 	return c
 }
@@ -138,8 +141,8 @@ func TestC15Child(t *testing.T) {
 
 // c15ExtA are the external properties of the measured transform, c15ExtB those of the other transforms.
 var (
-	c15ExtA = map[string]string{"tag": "A", "xp": "c0"}
-	c15ExtB = map[string]string{"tag": "B", "xp": "*[last()]"}
+	c15ExtA = map[string]string{"tag": "A", "xp": "c0", "num": "7", "flag": "true"}
+	c15ExtB = map[string]string{"tag": "B", "xp": "*[last()]", "num": "9", "flag": "false"}
 )
 
 func c15Run(schema string, in []byte) ([]run.Step, error) {
@@ -349,6 +352,12 @@ func checkC15(c c15Case) obs.Result {
 						}
 						if i == c.MutRec {
 							if first[s].Checksum == mres[s].Checksum {
+								if c.Shape.Format == "xml" && c.Shape.XMLAttr && c.MutCol == c.Shape.NCols-1 && first[s].RawJSON == mres[s].RawJSON &&
+									obs.KnownOpen("c15-checksum-blind-to-attributes-of-text-only-elements") {
+									// open finding: the checksum is taken over a JSON rendering of the record that leaves out the
+									// attributes of an element whose only other content is text
+									return obs.Result{Known: "c15-checksum-blind-to-attributes-of-text-only-elements", Classes: classes}
+								}
 								return obs.Violationf("record %d differs in one ingested value but its checksum is unchanged (%s)\noriginal input %q\nmutated input  %q\nraw before %s\nraw after  %s",
 									i, first[s].Checksum, in, min, first[s].RawJSON, mres[s].RawJSON)
 							}
